@@ -14,6 +14,10 @@ structure Variant where
   mergeSetsWtMax : Bool := false
   /-- merging an empty sketch still takes `min(k)` and brings the sample down to the new `k` -/
   mergeEmptyShrinks : Bool := false
+  /-- `replace_content` clamps `theta` to 1 (binary64 repair, proposed_fixes/C18-merge-rounding.patch) -/
+  clampTheta : Bool := false
+  /-- sample `merge` drops a fraction too small to register in `c_` (same patch) -/
+  vanishFix : Bool := false
   maxK : Nat := 2147483646
 
 structure Sketch (α : Type) where
@@ -39,7 +43,7 @@ def absorb (v : Variant) (s : Sketch α) (item : Nat) (incr : α) (thetaOf : α 
   let newCum := s.cumWt + incr
   let nr := newRho s.k newWtMax newCum
   let (smp, d) := if Num.lt zero s.cumWt then downsample v.geDraw s.sample (nr / s.rho) d else (s.sample, d)
-  let (smp, d) := mergeSample v.geDraw smp (replaceContent item (thetaOf nr)) d
+  let (smp, d) := mergeSampleV v.vanishFix v.geDraw smp (replaceContentV v.clampTheta item (thetaOf nr)) d
   ({ s with cumWt := newCum, rho := nr, sample := smp }, d)
 
 /-- `update(item, weight)`; `none` = `std::invalid_argument`. -/
